@@ -13,8 +13,9 @@ import numpy as np
 import vlib
 from props import calsim, calfile, c15
 
-THEOREMS = []
-FILES = ['Model/CalAlgebra.lean', 'Props/C01.lean']
+THEOREMS = ['Libvna.Cal.' + t for t in ('push_through', 'e_to_t', 'applyT_inverts', 'calibrate_then_apply_T', 'applyT_satisfies', 'applyT_scale_invariant',
+                                       'e_to_u', 'applyU_inverts', 'calibrate_then_apply_U', 'solve_unique')]
+FILES = ['Props/C01.lean']
 
 SHAPES_T = [(1, 1), (2, 2), (3, 3), (1, 2), (2, 3), (1, 3), (4, 4), (2, 4), (3, 4)]
 SHAPES_U = [(1, 1), (2, 2), (3, 3), (2, 1), (3, 2), (3, 1), (4, 4), (4, 2), (4, 3)]
@@ -73,6 +74,7 @@ def run(chk):
     broken = []
     if THEOREMS:
         c15.proof_side(chk, ['Libvna.Props.C01'], THEOREMS, FILES, broken)
+    chk.checker_cmd = 'cd lean && lake build Libvna.Props.C01 && #print axioms'
     chk.trusted += ['tools/props/calsim.py: physical E-term network used as ground truth', 'tools/props/calfile.py: documented M/S equations',
                     'IEEE rounding not modelled: tolerances 1e-8 (apply) and 1e-9 (saved terms at 12 digits)']
     exe, _ = vlib.build_c()
